@@ -5,7 +5,7 @@ use nom::{
     branch::alt,
     bytes::complete::{tag, tag_no_case},
     character::complete::{digit1, hex_digit1},
-    combinator::{map, map_res, opt, recognize},
+    combinator::{map, map_res, not, opt, peek, recognize},
     multi::many0,
     sequence::{delimited, preceded, tuple},
 };
@@ -21,8 +21,14 @@ impl Parser for ConstValue {
     fn parse(input: &str) -> IResult<&str, ConstValue> {
         alt((
             map(Literal::parse, ConstValue::String),
-            map(tag("true"), |_| ConstValue::Bool(true)),
-            map(tag("false"), |_| ConstValue::Bool(false)),
+            map(
+                tuple((tag("true"), peek(not(alphanumeric_or_underscore)))),
+                |_| ConstValue::Bool(true),
+            ),
+            map(
+                tuple((tag("false"), peek(not(alphanumeric_or_underscore)))),
+                |_| ConstValue::Bool(false),
+            ),
             map(Path::parse, ConstValue::Path),
             map(DoubleConstant::parse, ConstValue::Double),
             map(IntConstant::parse, ConstValue::Int),
